@@ -36,6 +36,9 @@ def analyse(prop: str, tier: str, root: str | None = None, overlay: dict | None 
     errs = res.check_floors()
     if errs and not res.violations():
         raise AnalysisError("; ".join(errs))
+    if res.dep_errors and not res.violations():
+        raise AnalysisError("a property this one depends on could not be analysed - " + "; ".join(res.dep_errors))
+    res.notes += [f"dependency not analysed (reported together with the violations): {e}" for e in res.dep_errors]
     res.notes += [f"floor not met (reported together with the violations): {e}" for e in errs]
     return res
 
